@@ -212,10 +212,20 @@ func (v *aBasic) Bin() (b []byte) {
 		b[0] = byte(si & 0xFF)
 		b[1] = byte((si >> 8) & 0xFF)
 
-	case *U32, *Rune:
+	case *U32:
 		b = make([]byte, 4)
 		i, _ := strconv.ParseUint(v.Name(), 0, 32)
 		si := uint32(i)
+		b[0] = byte(si & 0xFF)
+		b[1] = byte((si >> 8) & 0xFF)
+		b[2] = byte((si >> 16) & 0xFF)
+		b[3] = byte((si >> 24) & 0xFF)
+
+	case *Rune:
+		// rune is a signed 32-bit type: its constant text may be negative
+		b = make([]byte, 4)
+		i, _ := strconv.ParseInt(v.Name(), 0, 32)
+		si := uint32(int32(i))
 		b[0] = byte(si & 0xFF)
 		b[1] = byte((si >> 8) & 0xFF)
 		b[2] = byte((si >> 16) & 0xFF)
